@@ -30,10 +30,12 @@ Correspondence (see notes/prover_C12_TIE.md); the model runs inside coqc by vm_c
                             different from frame.numtimetraces (GShapeDrift: out-of-bounds reads in the kernels) is
                             NEVER given to the library; only the model's classification is compared there.
 
-Restrictions (the model is not faithful there, see the final report of the tie): default_weights_z on two EMPTY lists
-(the library raises ValueError from np.nditer); tfm_for_view_nd on a grid with FEWER points than the ray times have
-columns (the model truncates, the library raises ValueError in reshape); tables with no row do not know their number
-of columns (lookup_shape_ok, take_cols, amplitudes are not given such tables).
+Generated again since the repair of the model: default_weights_z on two EMPTY lists (the library raises ValueError from
+np.nditer, the model answers None) and tfm_for_view_nd on a grid with FEWER (or more) points than the ray times have
+columns, or with ray-time tables of two different widths on a grid of either size (the library raises in FocalLaw or in
+reshape, the model answers None).
+Remaining restriction: tables with no row do not know their number of columns (lookup_shape_ok, take_cols, amplitudes
+are not given such tables).
 """
 import logging
 import math
@@ -600,17 +602,18 @@ def spell_ints(rng, vals):
 
 def u_weights(arim, rng, tx=None, rx=None, family="random"):
     if tx is None:
-        n = int(rng.integers(1, 9))
+        n = 0 if rng.random() < 0.08 else int(rng.integers(1, 9))    # n = 0: two empty lists (np.nditer raises ValueError)
         lo, hi = ((-3, 4) if rng.random() < 0.3 else (0, int(rng.integers(1, 6))))
         tx = rng.integers(lo, hi + 1, size=n)
         rx = rng.integers(lo, hi + 1, size=n)
         r = rng.random()
-        if r < 0.25:      # reciprocal closure of a random set: all weights 1
+        if n == 0:
+            pass
+        elif r < 0.25:    # reciprocal closure of a random set: all weights 1
             tx, rx = np.concatenate([tx, rx]), np.concatenate([rx, tx])
         elif r < 0.4:     # length mismatch (one side may be empty)
             rx = rx[:int(rng.integers(0, n))] if rng.random() < 0.5 else np.concatenate([rx, rx[:1]])
-        family = "random" + (":negative values" if lo < 0 else "")
-    assert len(tx) or len(rx), "two empty lists: the library raises from np.nditer, the model answers Some [] (restriction)"
+        family = "random" + (":empty" if n == 0 else ":negative values" if lo < 0 else "")
     stx, dtx = spell_ints(rng, tx)
     srx, drx = spell_ints(rng, rx)
     try:
@@ -1254,19 +1257,26 @@ def gen_view(arim, rec, rng, kind, error=None):
     order = lambda a: "F" if (a.flags.f_contiguous and not a.flags.c_contiguous) else "C"    # noqa: E731
     fam = (f"ndim={len(shape)}:" if kind == 1 else "") + f"{order(ttx)}{order(trx)}:{mode.split(':')[0]}:{'amp' if amps else 'noamp'}:" \
         f"{['nearest', 'linear'][scheme]}:{'View+Rays' if real_view else 'namespace'}" + ("" if ntx == nrx else ":numtx!=numrx")
-    if error == "grid":         # more grid points than columns of the ray times: res.reshape(grid.shape) raises ValueError
-        shape = shape_with(rng, P + int(rng.integers(1, 4)))
-        fam = "error:grid larger than the ray times"
-    elif error == "columns":    # the two ray-time tables have different numbers of columns: FocalLaw asserts
+    if error == "grid":         # more OR FEWER grid points than columns of the ray times: res.reshape(grid.shape) raises ValueError
+        P0 = int(rng.integers(max(0, P - 3), P)) if rng.random() < 0.5 else P + int(rng.integers(1, 4))
+        shape = shape_with(rng, P0)
+        fam = f"error:grid {'smaller' if P0 < P else 'larger'} than the ray times"
+        if amps is not None and P0 and rng.random() < 0.5:    # amplitudes sized for the grid: FocalLaw asserts (tfm.py:228)
+            amps = _amps(rng, P0, ntx, nrx)
+            fam += ", amplitudes sized for the grid"
+    elif error == "columns":    # the two ray-time tables have different numbers of columns: FocalLaw asserts (tfm.py:214)
         P2 = P - 1 if (P > 1 and rng.random() < 0.5) else P + 1
         if rng.random() < 0.5:
             trx = _ray_times(rng, nrx, P2, ns, dt, m)
+            which = "rx"
         else:
             ttx = _ray_times(rng, ntx, P2, ns, dt, 0)
-        P = max(P, P2)
-        shape = shape_with(rng, P) if kind == 1 else (P,)
+            which = "tx"
+        P0 = int(rng.choice([P, P2]))       # the grid has the width of one of the two tables (the smaller or the larger)
+        shape = shape_with(rng, P0) if kind == 1 else (P0,)
         amps = None
-        fam = "error:ray times of different widths"
+        odd, odd_width = (which, P2) if P0 == P else ({"tx": "rx", "rx": "tx"}[which], P)
+        fam = f"error:ray times of different widths ({odd} table {'wider' if odd_width > P0 else 'narrower'} than the grid)"
     elif error == "amps":
         amps = _bad_amps(rng, _amps(rng, P, ntx, nrx))
         fam = "error:amplitudes of a wrong shape"
@@ -1345,6 +1355,8 @@ def fixed_units(arim, rng, rec):
            u_weights(arim, rng, [0, 0, 0], [1, 1, 0], "fixed:repeated pair"),
            u_weights(arim, rng, [5, -3, 7, 7], [7, 5, 5, -3], "fixed:negative values"),
            u_weights(arim, rng, [0, 0, 0], [1, 1], "fixed:length mismatch"),
+           u_weights(arim, rng, [], [], "fixed:empty"),
+           u_weights(arim, rng, [], [3], "fixed:length mismatch"),
            u_arr(arim, rng, np.array([[1, 2, 3], [4, 5, 6.0]]), "fixed"),
            u_arr(arim, rng, np.asfortranarray(np.array([[1, 2, 3], [4, 5, 6.0]])), "fixed"),
            u_shape(arim, rng, (6,), (2, 1, 3), "fixed"),
@@ -1392,6 +1404,13 @@ def fixed_pipelines(arim, rec, rng):
                                  scheme=1, fill=0.0, shape=(2,), ttx=a, trx=b))
     out.append(pipeline_case(arim, rec, kind=1, family="fixed:tfm_for_view_nd shape (2,1)", tx=tx, rx=rx, data=data, ns=12, dt=1.0, t0=0.5,
                              scheme=1, fill=0.0, shape=(2, 1), ttx=tC, trx=rC))
+    # ray times with more / fewer columns than the grid has points, tables of two widths (the library raises)
+    for name, shape, a, b in (("grid (1,) and 2 columns", (1,), tC, rC), ("grid (3,) and 2 columns", (3,), tC, rC),
+                              ("grid () and 2 columns", (), tC, rC), ("grid (0,) and 2 columns", (0,), tC, rC),
+                              ("grid (1,), rx table wider", (1,), tC[:, :1].copy(), rC), ("grid (1,), tx table wider", (1,), tC, rC[:, :1].copy()),
+                              ("grid (2,), rx table narrower", (2,), tC, rC[:, :1].copy())):
+        out.append(pipeline_case(arim, rec, kind=1, family="fixed:tfm_for_view_nd " + name, tx=tx, rx=rx, data=data, ns=12, dt=1.0, t0=0.5,
+                                 scheme=1, fill=0.0, shape=shape, ttx=a, trx=b))
     tx, rx, data = _ex_frame(HMC2)
     out.append(pipeline_case(arim, rec, kind=1, family="fixed:tfm_for_view_nd HMC (warning)", tx=tx, rx=rx, data=data, ns=12, dt=1.0, t0=0.5,
                              scheme=1, fill=0.0, shape=(1, 2), ttx=tC, trx=rC, view="real"))
@@ -1479,7 +1498,7 @@ def run(chk, arim, rng, quick):
                 pipes += [gen_contact_nd(arim, rec, rng, err) for _ in range(cnt * k)]
             for kind in (1, 2):
                 pipes += [gen_view(arim, rec, rng, kind) for _ in range(45 * k)]
-                for err, cnt in ((("grid", 6) if kind == 1 else ("columns", 3)), ("columns", 5), ("amps", 5), ("lanczos+amps", 2)):
+                for err, cnt in ((("grid", 10) if kind == 1 else ("columns", 3)), ("columns", 5), ("amps", 5), ("lanczos+amps", 2)):
                     pipes += [gen_view(arim, rec, rng, kind, err) for _ in range(cnt * k)]
             for wkind, cnt in (("default", 6), ("none", 6), ("scalar", 10), ("full", 10), ("one", 10), ("wrong", 12), ("drift", 10), ("nd", 6)):
                 pipes += [gen_x(arim, rec, rng, wkind) for _ in range(cnt * k)]
